@@ -29,6 +29,9 @@ func Generate(r *rand.Rand, profile string) *Scenario {
 	if profile == "minrt" || profile == "elastic" {
 		return generateVictims(r, profile)
 	}
+	if profile == "reclaim2" {
+		return generateReclaim2(r)
+	}
 	if profile == "bindfail" || profile == "overhead" || profile == "nested" || profile == "sharers" {
 		return generateTight(r, profile)
 	}
@@ -828,6 +831,67 @@ func generateTight(r *rand.Rand, profile string) *Scenario {
 			sc.Jobs = append(sc.Jobs, Job{Name: "j3", Queue: 3, Prio: 50, Preempt: 1, Min: 1, Age: 7100, LastStart: 36000})
 			sc.Pods = append(sc.Pods, Pod{Name: "j3-p1", Job: 3, Cpu: 500, Mem: 500, Gpu: 1, Phase: "R", Node: 1, Term: pick(0, 1)})
 		}
+	}
+	sc.Normalize()
+	return sc
+}
+
+// generateReclaim2 builds clusters in which SEVERAL reclaimers act in one cycle on victim queues that
+// are only slightly above their deserved quota / fair share, so that the legality of a later victim
+// (or of a later reclaimer) depends on what was already taken: victims spread over two leaf queues of
+// one department, two reclaimers of different queues, large single-pod reclaimers that need several
+// victims at once, small spare nodes that are useless for re-placing victims.
+func generateReclaim2(r *rand.Rand) *Scenario {
+	pick := func(vs ...int) int { return vs[r.Intn(len(vs))] }
+	sc := &Scenario{Class: "reclaim2"}
+	sc.Cfg = Cfg{Placement: []string{"binpack", "spread"}[r.Intn(2)], Consolidation: pick(0, 1), Signatures: pick(0, 1),
+		ConsReclaim: pick(0, 1), SatMult: 1000, Cycles: pick(1, 2), Env: "closed", FullHier: 1}
+	big := pick(4, 6, 8)
+	sc.Nodes = []Node{{Name: "n1", Cpu: 64000, Mem: 64000, Pods: 110, Gpus: big, GpuMem: 40000, Ready: 1}}
+	spare := pick(0, 1, 2)
+	for i := 0; i < spare; i++ {
+		sc.Nodes = append(sc.Nodes, Node{Name: fmt.Sprintf("n%d", i+2), Cpu: 64000, Mem: 64000, Pods: 110, Gpus: 1, GpuMem: 40000, Ready: 1})
+	}
+	twoLevel := pick(0, 1) == 1
+	// departments
+	sc.Queues = []Queue{{Name: "dv", Parent: 0, Prio: 100, GQ: -1, GL: -1, GW: 1, CQ: -1, CL: -1, MQ: -1, ML: -1}}
+	depR := 1
+	if twoLevel {
+		// victims' department slightly over its quota; reclaimers in another department ordered first
+		sc.Queues[0].GQ = pick(big/2, big/2+1, big-1) * 1000
+		sc.Queues = append(sc.Queues, Queue{Name: "dr", Parent: 0, Prio: 200, GQ: pick(big/2, big) * 1000, GL: -1, GW: 1, CQ: -1, CL: -1, MQ: -1, ML: -1})
+		depR = 2
+	}
+	// victim leaf queues under dv
+	nv := pick(1, 2, 2)
+	var vq []int
+	for i := 0; i < nv; i++ {
+		sc.Queues = append(sc.Queues, Queue{Name: fmt.Sprintf("qv%d", i+1), Parent: 1, Prio: 100, GQ: pick(0, 1000, 2000), GL: -1, GW: 1, CQ: -1, CL: -1, MQ: -1, ML: -1})
+		vq = append(vq, len(sc.Queues))
+	}
+	// reclaimer leaf queues
+	nr := pick(1, 2, 2)
+	var rq []int
+	for i := 0; i < nr; i++ {
+		sc.Queues = append(sc.Queues, Queue{Name: fmt.Sprintf("qr%d", i+1), Parent: depR, Prio: 200, GQ: pick(2000, 4000, big*1000/2), GL: -1, GW: 1, CQ: -1, CL: -1, MQ: -1, ML: -1})
+		rq = append(rq, len(sc.Queues))
+	}
+	// victims fill the big node
+	k := 0
+	for free := big; free > 0; {
+		size := pick(1, 2, 2)
+		if size > free {
+			size = free
+		}
+		k++
+		sc.Jobs = append(sc.Jobs, Job{Name: fmt.Sprintf("j%d", k), Queue: vq[r.Intn(len(vq))], Prio: 50, Preempt: 1, Min: 1, Age: 7200 + 60*k, LastStart: 36000})
+		sc.Pods = append(sc.Pods, Pod{Name: fmt.Sprintf("j%d-p1", k), Job: k, Cpu: 500, Mem: 500, Gpu: size, Phase: "R", Node: 1})
+		free -= size
+	}
+	for i := 0; i < nr; i++ {
+		k++
+		sc.Jobs = append(sc.Jobs, Job{Name: fmt.Sprintf("j%d", k), Queue: rq[i], Prio: 50, Preempt: 1, Min: 1, Age: 600 + 60*i, LastStart: -1})
+		sc.Pods = append(sc.Pods, Pod{Name: fmt.Sprintf("j%d-p1", k), Job: k, Cpu: 500, Mem: 500, Gpu: pick(2, 3, 4, big/2), Phase: "P"})
 	}
 	sc.Normalize()
 	return sc
